@@ -85,6 +85,9 @@ Definition ident_char (c : N) : bool := isalpha c || isdigit c || N.eqb c 95.
 Definition digit_value (c : N) : option N :=
   if is_ascii_digit c then Some (c - 48)%N else xdecimal c.
 (* int(out) *)
+(* CPython converts at most sys.get_int_max_str_digits() = 4300 digits (int(out) raises ValueError beyond);
+   Number() reports that as a syntax error after the digits (fix: of the ValueError escaping) *)
+Definition too_long (ds : str) : bool := N.ltb 4300 (N.of_nat (length ds)).
 Fixpoint int_of (s : str) (acc : N) : option N :=
   match s with
   | [] => Some acc
@@ -161,6 +164,7 @@ Fixpoint run (fuel : nat) : peg -> pst -> cerr -> list ptree -> pres :=
             | c :: _ =>
                 if isdecimal c then
                   let '(st', ds) := run_number (length (rest st)) (take 1 st) [c] in
+                  if too_long ds then RErr (here st') ce else
                   match int_of ds 0 with
                   | Some v => ROk st' ce (out ++ [TInt v])
                   | None => RInternal IValueError
